@@ -458,6 +458,22 @@ func (h *history) emitLayout() (*layout, bool) {
 					continue
 				}
 				a := fmt.Sprintf("st %d", st.Count)
+				if st.Name == "fb" {
+					// boolean columns keep count, min, max with their times (no sum)
+					if st.Count == 0 {
+						a += " - - - -"
+					} else {
+						mn, ok2 := valueToCode(st.Name, st.Min)
+						mx, ok3 := valueToCode(st.Name, st.Max)
+						mnT, _ := relSec(st.MinT)
+						mxT, _ := relSec(st.MaxT)
+						if !(ok2 && ok3) {
+							a += fmt.Sprintf(" !unrepresentable %v %v", st.Min, st.Max)
+						} else {
+							a += fmt.Sprintf(" %d %d %d %d", mn, mnT, mx, mxT)
+						}
+					}
+				}
 				if st.Name == "fi" || st.Name == "ff" {
 					if st.Count == 0 {
 						a += " - - - - -"
@@ -1179,8 +1195,8 @@ var fnCols = map[string][]string{
 	"count": {"fi", "ff", "fb", "fs"},
 	"sum":   {"fi", "ff"},
 	"mean":  {"fi", "ff"},
-	"min":   {"fi", "ff"},
-	"max":   {"fi", "ff"},
+	"min":   {"fi", "ff", "fb"},
+	"max":   {"fi", "ff", "fb"},
 	"first": {"fi", "ff", "fb", "fs"},
 	"last":  {"fi", "ff", "fb", "fs"},
 }
@@ -1319,6 +1335,9 @@ func (h *history) checkpoint(nq int) {
 		}
 		nontrivial := cuts || (len(lay.mem) > 0 && len(lay.files) > 0)
 		c.Case(fmt.Sprintf("%d:%s:%s", h.idx, h.kinds, q.opText()), nontrivial)
+		if nontrivial && i == 0 && h.idx%7 == 3 {
+			c.Sample(fmt.Sprintf("history %d ops=%s rows-per-segment=%d files=%d(ooo %d) memtable-series=%d: %s -> %s", h.idx, h.kinds, h.seg, len(lay.files), nOoo, len(lay.mem), q.sql(), ans))
+		}
 		if got == nil || raw == nil {
 			if strings.HasPrefix(ans, "err") {
 				c.Violation(line, "", fmt.Sprintf("history %d (%s): %s failed: %s", h.idx, h.kinds, q.sql(), ans))
@@ -1336,7 +1355,7 @@ func (h *history) checkpoint(nq int) {
 				c.Count("excluded:cross-generation-unhinted")
 				continue
 			}
-			c.Violation(line, classify(q), fmt.Sprintf("history %d (%s) seg=%d: %s -> %s; %s", h.idx, h.kinds, h.seg, q.sql(), ans, msg))
+			c.Violation(line, classify(q), fmt.Sprintf("history %d (%s) seg=%d: %s -> %s; %s; REPLAY (ogh C09 -replay <file with these lines>): %s", h.idx, h.kinds, h.seg, q.sql(), ans, msg, h.replayText(q)))
 			h.writeReplay(line, q)
 		}
 	}
@@ -1419,7 +1438,7 @@ func runReplay(c *hx.Ctx, path string) error {
 	var lay *layout
 	var full map[int][]row
 	defer engine.VerifSetMaxRowsPerSegment(0)
-	for _, ln := range strings.Split(string(data), "\n") {
+	for _, ln := range strings.Split(strings.ReplaceAll(string(data), " | ", "\n"), "\n") {
 		ln = strings.TrimSpace(ln)
 		if ln == "" || ln[0] == '#' {
 			continue
@@ -1510,8 +1529,31 @@ func runReplay(c *hx.Ctx, path string) error {
 	return nil
 }
 
+// classify names the evaluation path and the first call of a failing query: a stable class for
+// known_findings.jsonl (no class is listed there for the unchanged tree).
 func classify(q aggQuery) string {
-	return ""
+	path := "rows"
+	switch {
+	case q.eligible():
+		path = "statistics"
+	case q.hint:
+		path = "rows-exact-hint"
+	case q.interval > 0:
+		path = "rows-time-bucket"
+	case q.fcol != "":
+		path = "rows-field-filter"
+	}
+	dir := "asc"
+	if !q.asc {
+		dir = "desc"
+	}
+	return fmt.Sprintf("agg-differs-from-rows:%s:%s:%s", path, q.calls[0].f, dir)
+}
+
+// replayText is the history so far and the failing query, one line (the format of -replay
+// files with " | " for the line breaks).
+func (h *history) replayText(q aggQuery) string {
+	return fmt.Sprintf("H %d %d %d | %s | Q %s", h.seg, h.nSeries, h.nTimes, strings.Join(h.script, " | "), q.opText())
 }
 
 func runHistory(c *hx.Ctx, r *hx.Rng, idx int) error {
